@@ -382,6 +382,22 @@ def r20_iter_skip(text):
             # the form left by R1: `for W__r in X.iter().skip(K) { let W = *W__r;`
             m = re.search(r'(?m)^(\s*)for (\w+)__r in ([A-Za-z_][A-Za-z0-9_]*)\.iter\(\)\.skip\((\w+)\) \{ let \2 = \*\2__r;[ \t]*$', text)
         if not m:
+            # `for W in X.iter_mut().skip(K) { .. *W .. }` => `for s__N in K..X.len() { .. X[s__N] .. }` (W only as `*W`)
+            mm = re.search(r'(?m)^(\s*)for (\w+) in ([A-Za-z_][A-Za-z0-9_]*)\.iter_mut\(\)\.skip\((\w+)\) \{[ \t]*$', text)
+            if mm:
+                toks = lex(text)
+                ob = next(k for k, t in enumerate(toks) if t.text == '{' and t.start >= mm.end() - 3)
+                cb = match_close(toks, ob)
+                ind, w, x, kk = mm.groups()
+                body = text[toks[ob].end:toks[cb].start]
+                if re.search(r'(?<![*\w])' + re.escape(w) + r'\b', body):
+                    raise Unsupported('R20: iter_mut element used other than as *' + w)
+                n += 1
+                i = f's__{n}'
+                body2 = re.sub(r'\*' + re.escape(w) + r'\b', f'{x}[{i}]', body)
+                text = text[:mm.start()] + f'{ind}for {i} in {kk}..{x}.len() {{' + body2 + text[toks[cb].start:]
+                continue
+        if not m:
             return text, n
         n += 1
         ind, w, x, k = m.groups()
